@@ -70,4 +70,4 @@ class Req(pg.Object):
 CLASSES = {c.__name__: c for c in (P, Q, R, W, NC, Typed, Req)}
 UNTYPED = ('P', 'Q', 'R', 'W')
 FIELDS = {'P': ('x', 'y'), 'Q': ('x', 'y'), 'R': ('x', 'y', 'z'), 'W': ('a', 'b'),
-          'NC': ('x', 'y')}
+          'NC': ('x', 'y'), 'Typed': ('i', 's', 'e', 'l', 'd', 't', 'o', 'u'), 'Req': ('r', 'n')}
